@@ -26,6 +26,9 @@ func checkC05(c *Ctx) {
 	c.checkDerivationThroughRegistry("O1 through-registry")
 	c.checkSubscopeSource("O1 scope-by-canonical-key")
 	c.checkRootIdentityBeforeRegistration("O1 root-identity-first")
+	// "derivations whose prefix differs never share a scope or a metric": the qualified name is the
+	// prefix, the separator and the name, verbatim (shared with C04 O1)
+	c.shared(checkC04, map[string]string{"O1 concat-shape": "O3 qualified-name"})
 	// the tags a scope carries are the tags its key was built from: right-most map wins in the merge
 	// exactly as in the key writer (shared with C04 O3)
 	if merge := c.fn("", "", "mergeRightTags"); merge != nil {
@@ -183,6 +186,29 @@ func checkC05(c *Ctx) {
 				}
 			})
 		}
+		// the writer reads its maps itself: a path that hands them to another function (a "large tag set"
+		// slow path, say) is not covered by the rules above - it is judged on the view with that function
+		// inlined
+		instrsOf(w, func(in ssa.Instruction) {
+			call, ok := in.(*ssa.Call)
+			if !ok {
+				return
+			}
+			g := staticCallee(call)
+			if g == nil || g == w || !c.inModule(g) {
+				return
+			}
+			for _, a := range call.Call.Args {
+				t := a.Type().Underlying()
+				if sl, isSl := t.(*types.Slice); isSl {
+					t = sl.Elem().Underlying()
+				}
+				if _, isMap := t.(*types.Map); isMap {
+					okAll = false
+					c.bad("O2 determinism", key+":delegates", call.Pos(), "the key writer hands its tag maps to "+g.Name()+": on that path the key is not written by the code whose independence of map iteration order is decided here", c.describe(call))
+				}
+			}
+		})
 		if okAll {
 			c.ok("O2 determinism", key, w.Pos(), fmt.Sprintf("%d map range(s) only collect keys; keys are sorted before being read; values are fetched by key", len(ranges)))
 		}
